@@ -71,7 +71,10 @@ def install_rec(h):
             return False
         if isinstance(x, _OpaqueMixin) and isinstance(y, _OpaqueMixin):
             return mk_bool(R(x._u, y._u))
-        raise EngineFault(f"rec() called on non-child values {x!r}, {y!r}")
+        if isinstance(x, _OpaqueMixin) or isinstance(y, _OpaqueMixin):
+            return False        # an opaque child vs. a concrete node
+        # real nodes: the real dispatcher (its own contract: equality.rec)
+        return interp.call_repo_function(fn, args, kwargs)
     h.interp.contracts[EqualityComparer.rec] = rec_stub
 
 
